@@ -2132,10 +2132,10 @@ impl<'a> Evaluator<'a> {
             Expr::While(w) => {
                 // bounded unrolling: a loop that does not finish within the bound is an analysis failure, not a result
                 for _ in 0..WHILE_BOUND.with(|b| b.get()) {
-                    let mut e2 = env.clone();
                     if let Expr::Let(l) = &*w.cond {
-                        // `while let PAT = EXPR`
+                        // `while let PAT = EXPR` (the scrutinee may consume from an iterator held in a variable: the body sees that)
                         let v = self.eval(&l.expr, env)?;
+                        let mut e2 = env.clone();
                         match self.pat_match(&l.pat, &v, &mut e2) {
                             PatM::Yes => {}
                             PatM::No => return Ok(Val::Unit),
@@ -2158,6 +2158,7 @@ impl<'a> Evaluator<'a> {
                         Val::Bool(true) => {}
                         o => return Err(format!("while condition evaluated to {}", o.show())),
                     }
+                    let mut e2 = env.clone();
                     let r = self.eval_block(&w.body, &mut e2)?;
                     merge_back(env, &e2);
                     if let Val::Ctor(n, _, _) = &r {
